@@ -270,6 +270,23 @@ impl Default for SchedCfg {
     }
 }
 
+/// One `connect()` sozu made to a simulated TCP address, as the simulated network saw it (C12 traffic tier).
+#[derive(Clone, Debug)]
+pub struct ConnectRec {
+    /// virtual time of the connect() call
+    pub t: u64,
+    pub fd: i32,
+    pub dst: SocketAddr,
+    /// 1 established (a listener accepted), 2 refused synchronously, 3 refused after a delay, 4 black-holed, 5 unreachable
+    pub answer: u8,
+    /// virtual time at which the outcome becomes visible to sozu (establishment / RST); 0 = never (black hole)
+    pub done_at: u64,
+    /// epoll token sozu first registered the socket with (None: never registered)
+    pub token: Option<u64>,
+    /// virtual time sozu closed the socket (0 = still open)
+    pub t_close: u64,
+}
+
 pub struct World {
     pub seed: u64,
     pub now: u64,
@@ -325,6 +342,8 @@ pub struct World {
     /// consecutive would-block writes by sozu since its last epoll_wait (busy-loop damping)
     eagain_streak: u32,
     pub spin_breaks: u64,
+    /// every connect() of sozu to a simulated TCP address, in order
+    pub connect_log: Vec<ConnectRec>,
 }
 
 impl World {
@@ -372,6 +391,7 @@ impl World {
             post_exit_drain_ns: 0,
             eagain_streak: 0,
             spin_breaks: 0,
+            connect_log: Vec::new(),
         })
     }
 
@@ -752,8 +772,9 @@ impl World {
         let mode = self.topo.get(&dst).cloned().unwrap_or(ConnectMode::Refuse { delay_ns: 0 });
         self.logf(|| format!("sozu connect fd={fd} dst={dst} mode={mode:?}"));
         self.tr(0xC0, match &mode { ConnectMode::Listen { .. } => 1, ConnectMode::Refuse { .. } => 2, ConnectMode::Blackhole => 3, ConnectMode::Unreachable => 4 });
+        self.connect_log.push(ConnectRec { t: self.now, fd, dst, answer: 0, done_at: 0, token: None, t_close: 0 });
         match mode {
-            ConnectMode::Unreachable => { sys::set_errno(libc::ENETUNREACH); -1 }
+            ConnectMode::Unreachable => { self.connect_note(5, self.now); sys::set_errno(libc::ENETUNREACH); -1 }
             ConnectMode::Listen { delay_ns } => {
                 let local: SocketAddr = format!("127.0.0.1:{}", self.ephemeral()).parse().unwrap();
                 match self.peer_connect(&local, &dst, None) {
@@ -761,6 +782,7 @@ impl World {
                         let _ = sys::dup3(nfd, fd, libc::O_CLOEXEC);
                         sys::close(nfd);
                         self.sozu_fds.insert(fd, 'c');
+                        self.connect_note(1, self.now + delay_ns);
                         if delay_ns > 0 {
                             self.stats.connect_delayed += 1;
                             self.pending.insert(fd, Pending { kind: PendingKind::Establish, due: Some(self.now + delay_ns), reg: None });
@@ -775,6 +797,7 @@ impl World {
             ConnectMode::Blackhole => {
                 self.stats.connect_blackholed += 1;
                 self.stats.fault("connect_blackhole");
+                self.connect_note(4, 0);
                 let (a, b) = sys::socketpair(libc::AF_UNIX, libc::SOCK_STREAM | libc::SOCK_NONBLOCK | libc::SOCK_CLOEXEC).unwrap();
                 let _ = sys::dup3(a, fd, libc::O_CLOEXEC);
                 sys::close(a);
@@ -785,13 +808,18 @@ impl World {
             }
         }
     }
+    fn connect_note(&mut self, answer: u8, done_at: u64) {
+        if let Some(r) = self.connect_log.last_mut() { r.answer = answer; r.done_at = done_at; }
+    }
     fn refuse(&mut self, fd: i32, delay_ns: u64) -> i32 {
         self.stats.connect_refused += 1;
         self.stats.fault("connect_refused");
         if delay_ns == 0 && self.sched.below(2) == 0 {
+            self.connect_note(2, self.now);
             sys::set_errno(libc::ECONNREFUSED);
             return -1;
         }
+        self.connect_note(3, self.now + delay_ns.max(1000));
         let (a, b) = sys::socketpair(libc::AF_UNIX, libc::SOCK_STREAM | libc::SOCK_NONBLOCK | libc::SOCK_CLOEXEC).unwrap();
         let _ = sys::dup3(a, fd, libc::O_CLOEXEC);
         sys::close(a);
@@ -814,6 +842,7 @@ impl World {
         if self.sozu_fds.contains_key(&fd) {
             self.epoll_regs.insert(fd, (epfd, events, data));
             self.token_fd.insert((epfd, data), fd);
+            if let Some(r) = self.connect_log.iter_mut().rev().find(|r| r.fd == fd) { if r.t_close == 0 && r.token.is_none() { r.token = Some(data); } }
         }
         if let Some(p) = self.pending.get_mut(&fd) {
             p.reg = Some((epfd, events, data));
@@ -826,6 +855,7 @@ impl World {
 
     pub fn on_close(&mut self, fd: i32) {
         self.stats.closes += 1;
+        if self.sozu_fds.get(&fd) == Some(&'c') { let now = self.now; if let Some(r) = self.connect_log.iter_mut().rev().find(|r| r.fd == fd) { if r.t_close == 0 { r.t_close = now; } } }
         if let Some(p) = self.pending.remove(&fd) {
             match p.kind {
                 PendingKind::Refuse { held_fd } | PendingKind::Blackhole { held_fd } => sys::close(held_fd),
